@@ -152,7 +152,11 @@ func ioSupported(f ioFmt, d ref.DT) bool {
 		ok = t2.Dtype() == d.D && len(got) == 3 && ref.Same(got[0], vals[0]) && ref.Same(got[2], vals[2])
 		return nil
 	})
-	ioSupport[k] = o.Class == "ok" && ok
+	// unsupported = the format REFUSES the element type on the plainest input (encode or decode reports an error or
+	// panics). A pair that encodes and decodes without complaint is supported - if it then delivers other data, that is
+	// exactly what the property forbids, and the cases below report it
+	_ = ok
+	ioSupport[k] = o.Class == "ok"
 	return ioSupport[k]
 }
 
